@@ -107,6 +107,71 @@ impl Monitor for C13 {
         }
         C13Case { family: name.into(), u, problems, history, opts }
     }
+    /// A MARATHON on one solver (once per run, native only): a universe of 300 packages with 40
+    /// candidates each, every package required, solved ~90 times on the same solver in
+    /// alternation with smaller prefixes of the problem. Over its lifetime the solver allocates far
+    /// more than 2^17 helper variables and a million clauses; whatever is carried over or counted
+    /// across solves (ids, counters, recycled tables) meets its limits here. Oracle: every call
+    /// returns Ok with a valid solution (each package's best candidate, by construction).
+    fn fixed(&self, _tier: Tier, shard: u64, _nshards: u64, ctx: &mut Ctx) {
+        if shard != 0 || crate::report::small() {
+            return;
+        }
+        let mut u = Universe::default();
+        let npk = 300u32;
+        let mut reqs = vec![];
+        for p in 0..npk {
+            let name = format!("m{p}");
+            for v in (1..=40u32).rev() {
+                u.solv(&name, v);
+            }
+            reqs.push(Req::Single(u.vs(&name, 1, 41)));
+        }
+        u.finalize();
+        let u = Rc::new(u);
+        let rf = Ref::new(&u);
+        let mut sess = Session::new(u.clone(), &SolveOpts::default());
+        let mut helper_vars_estimate = 0u64;
+        for round in 0..90u32 {
+            // the full problem, or a prefix of it (different sizes, shared requirements)
+            let n = match round % 3 {
+                0 => npk as usize,
+                1 => 100 + (round as usize * 7) % 150,
+                _ => npk as usize - (round as usize % 40),
+            };
+            let p = Prob { reqs: reqs[..n].to_vec(), cons: vec![], soft: vec![] };
+            ctx.rep.evaluations += 1;
+            helper_vars_estimate += 6 * n as u64;
+            let what = format!("marathon call #{round} ({n} packages, ~{helper_vars_estimate} helper variables allocated so far on this solver)");
+            match sess.solve(&p) {
+                Outcome::Ok(sol) => {
+                    if sol.len() != n {
+                        ctx.violation("verdict differs from a fresh solver", format!("{what}: {} solvables returned for {n} required packages", sol.len()));
+                        break;
+                    }
+                    let bad = rf.check(&p, &sol, &[]);
+                    if let Some(v) = bad.first() {
+                        ctx.violation(format!("reused-invalid:{v}"), what.clone());
+                        break;
+                    }
+                }
+                Outcome::Unsat(_) => {
+                    ctx.violation("verdict differs from a fresh solver", format!("{what}: Unsolvable for a trivially solvable problem"));
+                    break;
+                }
+                Outcome::Panic(pi) => {
+                    ctx.violation(format!("panic on reused solver: {}", pi.signature()), what.clone());
+                    break;
+                }
+                o => {
+                    ctx.violation("step budget exceeded on reused solver", format!("{what}: {}", o.tag()));
+                    break;
+                }
+            }
+        }
+        ctx.rep.count("marathon-histories (90 calls, 300 packages x 40 candidates)");
+        ctx.rep.max("marathon:helper-variables-allocated-on-one-solver (estimate)", helper_vars_estimate);
+    }
     fn check(&self, c: &C13Case, ctx: &mut Ctx) {
         let u = Rc::new(c.u.clone());
         let rf = Ref::new(&u);
